@@ -21,7 +21,6 @@ from collections.abc import Hashable
 
 import numpy as np
 from numpy import random
-import igraph
 
 from ._ext.types import to_cy, ADJ, NODE, FIELD, DEGREE
 from ._ext.numerics import _randomly_rewire_geomodel_I, \
@@ -175,8 +174,8 @@ class SpatialNetwork(Network):
         grid = Grid.Load(filename_grid)
 
         #  Load to igraph Graph object
-        graph = igraph.Graph.Read(f=filename_network, format=fileformat,
-                                  *args, **kwds)
+        graph = Network._read_graph(filename_network, fileformat,
+                                    *args, **kwds)
 
         #  Extract adjacency matrix
         A = np.array(graph.get_adjacency(type=2).data)
